@@ -188,6 +188,39 @@ impl Part for C01 {
         // (RFC 9180 defines no output for an empty PSK in a PSK mode: round trip only, no R1 bytes)
         let rfc_defined = !(c.mode.has_psk() && c.psk_len == 0);
         let mut ref_s = if rfc_defined { r1_setup_s(c.suite, &m, &k.pk_r, &info, &k.ikm_e).map(|x| x.1) } else { None };
+        // the i-th message opens for EVERY i: continue the same session far into the sequence space (hook) -
+        // three messages across each of these positions, sender and receiver moved together
+        if matches!(c.seq, Seq::Grid { .. }) {
+            let (mut s2, mut r2) = {
+                let mut rng = ScriptRng::new(&k.ikm_e);
+                match (ops.setup_sender(&m, &k.pk_r, &info, &mut rng), ops.setup_receiver(&m, &k.sk_r, &enc, &info)) {
+                    (Obs::Ok((_, s2)), Obs::Ok(r2)) => (s2, r2),
+                    _ => {
+                        out.fail("second setup failed");
+                        return out;
+                    }
+                }
+            };
+            for start in [(1u64 << 16) - 1, (1u64 << 32) - 2, (1u64 << 48) - 1, (1u64 << 56) - 1, u64::MAX - 2] {
+                s2.set_seq(start);
+                r2.set_seq(start);
+                for j in 0..3u64 {
+                    let pt = bytes(c.fill, 3 + j as usize, 900 + j, cfg.seed);
+                    let aad = bytes(c.fill, j as usize, 910 + j, cfg.seed);
+                    let ct = s2.seal(&pt, &aad);
+                    out.transitions += 1;
+                    match ct {
+                        Obs::Ok(ct) => {
+                            expect_bytes(&mut out, &format!("message at sequence number {:#x} opens to its plaintext", start.wrapping_add(j)), &r2.open(&ct, &aad), &pt);
+                        }
+                        o => {
+                            out.fail(format!("seal at sequence number {:#x}: {}", start.wrapping_add(j), o.class()));
+                            break;
+                        }
+                    }
+                }
+            }
+        }
         for (i, &(pl, al)) in shapes.iter().enumerate() {
             let pt = bytes(c.fill, pl, 100 + i as u64, cfg.seed);
             let aad = bytes(c.fill, al, 200 + i as u64, cfg.seed);
